@@ -92,7 +92,8 @@ def main():
             tot_s += 1
             cat.append(
                 "  * s:`seeded/%s` (%s; %s) → %s"
-                % (sid, short(meta.get("summary", ""), 160), "confirmed: demo fails with / passes without, existing tests pass" if conf.get("confirmed") else "confirmation: see seeded/%s" % sid, ", ".join("`%s`" % e for e in chk["expect"]))
+                % (sid, short(meta.get("summary", ""), 160), "confirmed: demo fails with / passes without, existing tests pass" if conf.get("confirmed") else "confirmation: see seeded/%s" % sid,
+                   ("**MISSED** - " + chk["known_miss"]) if chk.get("known_miss") else ", ".join("`%s`" % e for e in chk["expect"]))
             )
         for name, s in mutants.get(pid, []):
             tot_m += 1
